@@ -5,7 +5,10 @@ setters that store to ``self``, directly or through another mutator / ``_checkRe
 have an input table below (or an explicit exclusion with a reason); a mutator that is in neither is reported as undecided.
 Each (prior state, target, mutator, input) case is run on a freshly parsed state in raising mode; whenever the call ends in
 ``xml.dom.DOMException`` the snapshot (cssText of target / owner rule / sheet and the structural lists) taken before the call
-must equal the snapshot taken after it.
+must equal the snapshot taken after it.  The snapshot holds the serialisation under the default serializer preferences and under
+every preference at a non-default value (``pref_profiles``): state that only a non-default serializer writes (literal at-keyword,
+literal property name / priority, shadowed properties, empty rules, ...) is observable state.  The read-only clause is run in both
+error modes (``cssutils.log.raiseExceptions`` True and False): the guard must not depend on the error handler raising.
 """
 import ast
 import inspect
@@ -292,13 +295,80 @@ def snap(obj):  # noqa: C901
     return json.loads(json.dumps(d, default=repr))
 
 
-def snapshot(target, owner, sheet):
+# "serialises exactly as before" is a statement about the serializer the application has configured, not only about the default
+# one: parts of the DOM state (literal at-keyword / property name / priority spelling, shadowed properties, empty rules, variable
+# references, href notation, full colour hashes ...) are written only under non-default preferences.  The snapshot therefore also
+# records the serialisation under every preference of cssutils.serialize.Preferences at a non-default value, one at a time
+# (enumerated mechanically from the preference object), under the shipped minified profile and with everything flipped at once.
+# Quick tier: the boolean / enumerated preferences one at a time, the string-valued (spacing) ones only jointly (useMinified() and
+# the all-flipped profile set every one of them to ''); thorough tier: those one at a time as well, at two values each.
+
+_STR_ALTERNATIVES = {'quick': (), 'thorough': ('', '\t')}  # differ from every default (' ', 4 spaces, '\n')
+_PROFILE_CACHE = {}
+
+
+def pref_profiles(tier='quick'):
+    """-> (ordered {profile name: {preference: value}}, [preferences of a type the rule below cannot vary])"""
+    if tier in _PROFILE_CACHE:
+        return _PROFILE_CACHE[tier]
+    import cssutils.serialize
+    defaults = dict(vars(cssutils.serialize.Preferences()))
+    profiles, unhandled, first = {}, [], {}
+    for k in sorted(defaults):
+        v = defaults[k]
+        if isinstance(v, bool):
+            alts = [not v]
+        elif isinstance(v, str):
+            alts = list(_STR_ALTERNATIVES['quick' if tier == 'quick' else 'thorough'])
+        elif v is None and k == 'importHrefFormat':
+            alts = ['string', 'uri']  # the two documented values
+        else:
+            unhandled.append(k)
+            continue
+        first[k] = alts[0] if alts else ''
+        for alt in alts:
+            profiles[f'{k}={alt!r}'] = {k: alt}
+    mini = cssutils.serialize.Preferences()
+    mini.useMinified()
+    profiles['useMinified()'] = {k: v for k, v in vars(mini).items() if defaults.get(k, v) != v or k not in defaults}
+    profiles['all non-default'] = first
+    _PROFILE_CACHE[tier] = (profiles, unhandled)
+    return _PROFILE_CACHE[tier]
+
+
+def _text(obj):
+    """the serialisation of one object through its public text attribute(s)"""
+    import cssutils.css as C
+    if isinstance(obj, C.CSSRuleList):
+        return _g(lambda: [r.cssText for r in obj])
+    out = []
+    for attr in ('cssText', 'selectorText', 'mediaText'):
+        if isinstance(inspect.getattr_static(type(obj), attr, None), property):
+            out.append(_g(lambda attr=attr: getattr(obj, attr)))
+    return out
+
+
+def snapshot(target, owner, sheet, tier='quick'):
     import cssutils
     old = cssutils.log.raiseExceptions
     cssutils.log.raiseExceptions = False
+    prefs = cssutils.ser.prefs
     try:
-        return {'target': snap(target), 'owner': snap(owner), 'sheet': snap(sheet)}
+        prefs.useDefaults()
+        d = {'target': snap(target), 'owner': snap(owner), 'sheet': snap(sheet)}
+        parts = [(n, o) for n, o in (('target', target), ('owner', owner), ('sheet', sheet)) if o is not None]
+        for pname, settings in pref_profiles(tier)[0].items():
+            prefs.useDefaults()
+            for k, v in settings.items():
+                setattr(prefs, k, v)
+            seen = {}
+            for n, o in parts:
+                if id(o) not in seen:
+                    seen[id(o)] = json.loads(json.dumps(_text(o), default=repr))
+                d[n][f'text under prefs {pname}'] = seen[id(o)]
+        return d
     finally:
+        prefs.useDefaults()
         cssutils.log.raiseExceptions = old
 
 
@@ -893,12 +963,15 @@ def _argrepr(args):
 
 
 def run_target(job):  # noqa: C901
-    """worker: (state, locname, tier, readonly[, mutator, lo, hi]) -> summary dict; pure, picklable"""
+    """worker: (state, locname, tier, readonly[, mutator, lo, hi[, raising]]) -> summary dict; pure, picklable
+
+    ``raising`` is the error mode (cssutils.log.raiseExceptions) during the mutating call: True = DOM default, False = log-only."""
     state, locname, tier, readonly = job[:4]
     only, lo, hi = (job[4], job[5], job[6]) if len(job) > 4 else (None, 0, None)
+    raising = job[7] if len(job) > 7 else True
     cssutils = _quiet()
     table = [(c.__name__, k, n) for c, k, n in enumerate_mutators()] + EXTRA_MUTATORS
-    res = {'job': job, 'cases': 0, 'rejected': 0, 'accepted': 0, 'other': 0, 'failures': [], 'stages': {}, 'missing': [], 'kinds': set()}
+    res = {'job': job, 'cases': 0, 'rejected': 0, 'accepted': 0, 'other': 0, 'failures': [], 'stages': {}, 'missing': [], 'kinds': set(), 'refused': {}}
     try:
         probe = _fresh(state, locname)
         if probe is None:
@@ -934,8 +1007,8 @@ def run_target(job):  # noqa: C901
                     a = args(target, owner, sheet) if callable(args) else args
                 except (IndexError, AttributeError):
                     continue  # the argument cannot be built in this prior state (e.g. no rule to name)
-                before = snapshot(target, owner, sheet)
-                cssutils.log.raiseExceptions = True
+                before = snapshot(target, owner, sheet, tier)
+                cssutils.log.raiseExceptions = raising
                 exc = None
                 try:
                     _apply(target, kind, name, a)
@@ -954,13 +1027,16 @@ def run_target(job):  # noqa: C901
                 mk = f'{key[0]}.{key[1]}'
                 st = res['stages'].setdefault(mk, {})
                 st[stage + ':' + outcome] = st.get(stage + ':' + outcome, 0) + 1
-                after = snapshot(target, owner, sheet)
+                if not readonly and outcome != 'rejected':
+                    continue  # the clause speaks about rejected calls only
+                after = snapshot(target, owner, sheet, tier)
                 changed = diff(before, after)
-                rec = {'state': state, 'target': locname, 'class': cls.__name__, 'mutator': name, 'table': mk, 'stage': stage, 'args': _argrepr(a),
+                rec = {'state': state, 'target': locname, 'class': cls.__name__, 'mutator': name, 'table': mk, 'stage': stage, 'args': _argrepr(a), 'raising': raising,
                        'exception': type(exc).__name__ if exc is not None else None, 'message': str(exc)[:160] if exc is not None else None, 'diff': changed[:6]}
                 if readonly:
                     if isinstance(exc, xml.dom.NoModificationAllowedErr):
                         res['kinds'].add((cls.__name__, name, 'NoModificationAllowedErr'))
+                        res['refused'][raising] = res['refused'].get(raising, 0) + 1
                         if changed:
                             rec['clause'] = 'readonly-changed'
                             res['failures'].append(rec)
@@ -976,15 +1052,15 @@ def run_target(job):  # noqa: C901
                                 x._readonly = False
                         try:
                             a2 = args(t2, o2, s2) if callable(args) else args
-                            b2 = snapshot(t2, o2, s2)
-                            cssutils.log.raiseExceptions = True
+                            b2 = snapshot(t2, o2, s2, tier)
+                            cssutils.log.raiseExceptions = raising
                             try:
                                 _apply(t2, kind, name, a2)
                             except Exception:
                                 pass
                             finally:
                                 cssutils.log.raiseExceptions = False
-                            twin_changed = bool(diff(b2, snapshot(t2, o2, s2)))
+                            twin_changed = bool(diff(b2, snapshot(t2, o2, s2, tier)))
                         except (IndexError, AttributeError):
                             twin_changed = False
                         if twin_changed:
@@ -1168,6 +1244,19 @@ RO_FLAGGED = ('sheet', 'sheet.cssRules', 'media', 'media.cssRules', 'page', 'pag
 CHUNK = 40
 
 
+
+def error_modes(tier, readonly):
+    """error modes (cssutils.log.raiseExceptions) in which the mutating call is made.
+
+    The read-only clause is unconditional ("reject every mutator"), so it is checked in both modes of the error handler in every tier.
+    The rejected-call clause is about calls that ended in a DOM exception: the rejecting inputs produce these in raising mode; in
+    log-only mode only the exceptions raised directly (not through the log) remain - about 4% of the calls, with no (class, mutator,
+    stage, exception) combination that raising mode does not have -, so that mode is run in the thorough tier only."""
+    if readonly or tier != 'quick':
+        return (True, False)
+    return (True,)
+
+
 def all_jobs(tier, readonly=False):
     """(state, target, tier, readonly, mutator, lo, hi): one job per mutator and slice of its input table, heavy tables split"""
     _quiet()
@@ -1200,7 +1289,8 @@ def all_jobs(tier, readonly=False):
                     inputs = readonly_inputs(cls, name)
                 n = len(inputs) if inputs else 1
                 for lo in range(0, n, CHUNK):
-                    jobs.append((state, locname, tier, readonly, name, lo, lo + CHUNK))
+                    for raising in error_modes(tier, readonly):
+                        jobs.append((state, locname, tier, readonly, name, lo, lo + CHUNK, raising))
     finally:
         cssutils.log.raiseExceptions = True
     # heavy states first so that the pool drains evenly
@@ -1356,10 +1446,10 @@ def _report(ctx, results):
         for f in r['failures']:
             kid = classify(f)
             what = f"{CLAUSE_TEXT[f['clause']]} [{f['class']}.{f['mutator']}]"
-            detail = (f"prior state {f['state']!r}, target {f['target']!r}: {f['class']}.{f['mutator']}{tuple(f['args'])!r} ({f['stage']}) -> "
+            detail = (f"prior state {f['state']!r}, target {f['target']!r}, cssutils.log.raiseExceptions={f.get('raising', True)}: {f['class']}.{f['mutator']}{tuple(f['args'])!r} ({f['stage']}) -> "
                       f"{f['exception'] or 'no exception'}: {f['message']}; changed: {'; '.join(f['diff'][:3])}")
             inputs = {'state': f['state'], 'state_text': STATES.get(f['state']), 'target': f['target'], 'class': f['class'], 'mutator': f['mutator'], 'args': f['args'],
-                      'read_only': f['clause'].startswith('readonly')}
+                      'read_only': f['clause'].startswith('readonly'), 'raiseExceptions': f.get('raising', True)}
             ctx.violation(what, detail, True, inputs, known_id=kid)
             if kid is None or kid not in ctx.known:
                 n_viol += 1
@@ -1388,6 +1478,9 @@ def rejected(ctx):
     """clause 1: every public mutator x rejected-at-every-stage inputs x prior states: DOMException => nothing changed"""
     _quiet()
     muts = enumerate_mutators()
+    profiles, unhandled = pref_profiles(ctx.tier)
+    for k in unhandled:
+        ctx.undecided.append(f'C11 snapshot: serializer preference {k} has a default of a type the profile rule cannot vary; the snapshot is not taken under a non-default value of it')
     jobs, results = _run(ctx, False)
     _report(ctx, results)
     _coverage_gaps(ctx, results, False)
@@ -1409,13 +1502,17 @@ def rejected(ctx):
         'name': 'rejected mutations', 'evaluations': sum(r['cases'] for r in results), 'distinct_nontrivial': len(kinds), 'exhaustive': False,
         'rule': (f'{len(muts)} public mutators of {len(classes)} DOM classes enumerated mechanically from the class ASTs (+{len(EXTRA_MUTATORS)} listed list/mapping operations) x input tables built to be '
                  'rejected immediately / after an acceptable prefix / inside a nested object / by position x '
-                 f'{len(states_of(ctx.tier))} prior sheets (every reachable target of each) + {len(_detached())} detached objects, each case on a freshly parsed state in raising mode; '
-                 'compared: cssText of target / owner rule / sheet, rule types, property list, selector list, media list, namespaces; '
+                 f'{len(states_of(ctx.tier))} prior sheets (every reachable target of each) + {len(_detached())} detached objects, each case on a freshly parsed state in raising mode' + (' and in log-only mode' if ctx.tier != 'quick' else '') + '; '
+                 'compared: cssText of target / owner rule / sheet, rule types, property list, selector list, media list, namespaces, and the serialisation of target / owner rule / sheet under '
+                 f'{len(profiles)} non-default serializer preference profiles (the {len(vars(__import__("cssutils").ser.prefs))} preferences at a non-default value one at a time' + (' - string-valued ones only jointly -' if ctx.tier == 'quick' else '') + ', useMinified(), all flipped at once); '
                  'distinct = (class, mutator, stage, DOM exception) combinations that were actually rejected'),
-        'rejected_calls': sum(r['rejected'] for r in results), 'accepted_calls': sum(r['accepted'] for r in results), 'non_dom_exceptions': sum(r['other'] for r in results),
+        'rejected_calls': sum(r['rejected'] for r in results), 'rejected_calls_log_only_mode': sum(r['rejected'] for r in results if len(r['job']) > 7 and r['job'][7] is False), 'accepted_calls': sum(r['accepted'] for r in results), 'non_dom_exceptions': sum(r['other'] for r in results),
         'mutators_never_rejected_by_any_input': never_rejected,
         'samples': [{'class': k[0], 'mutator': k[1], 'stage': k[2], 'exception': k[3]} for k in kinds[:: max(1, len(kinds) // 3)][:3]],
-        'bound': f'{len(jobs)} (state, target, mutator) jobs; fixed input tables; {len(states_of(ctx.tier))} prior states'})
+        'preference_profiles': list(profiles),
+        'bound': (f'{len(jobs)} (state, target, mutator) jobs; fixed input tables; {len(states_of(ctx.tier))} prior states; {len(profiles)} serializer preference profiles besides the defaults '
+                  '(boolean preferences flipped, importHrefFormat at both documented values, string-valued preferences ' + ("only jointly at ''" if ctx.tier == 'quick' else "one at a time at '' and a tab") + '); calls made with cssutils.log.raiseExceptions in '
+                  + repr(error_modes(ctx.tier, False)))})
 
 
 def readonly(ctx):
@@ -1442,11 +1539,14 @@ def readonly(ctx):
     ctx.bounded.append({
         'name': 'read-only objects', 'evaluations': sum(r['cases'] for r in results), 'distinct_nontrivial': len(kinds), 'exhaustive': False,
         'rule': (f'{sum(1 for f in fac.values() if f)} classes constructed with readonly=True, and sheets / @media / @page rules and their rule lists flagged _readonly in {len(states_of(ctx.tier))} prior sheets, '
-                 'x every enumerated mutator x valid state-changing arguments: NoModificationAllowedErr and identical snapshot required; a call that is not refused and changes nothing is compared with a '
+                 'x every enumerated mutator x valid state-changing arguments x both error modes (cssutils.log.raiseExceptions True and False): NoModificationAllowedErr and identical snapshot '
+                 f'(including the serialisation under {len(pref_profiles(ctx.tier)[0])} non-default serializer preference profiles) required; a call that is not refused and changes nothing is compared with a '
                  'writable twin (it must be a no-op there too); distinct = (class, mutator) pairs that refused'),
         'noop_calls': sum(r.get('noop', 0) for r in results),
+        'refused_calls_raising_mode': sum(r['refused'].get(True, 0) for r in results),
+        'refused_calls_log_only_mode': sum(r['refused'].get(False, 0) for r in results),
         'samples': [{'class': k[0], 'mutator': k[1], 'answer': k[2]} for k in kinds[:3]],
-        'bound': f'{len(jobs)} jobs; fixed argument tables'})
+        'bound': f'{len(jobs)} jobs; fixed argument tables; error modes: raising and log-only'})
 
 
 def _explore(argv):
